@@ -338,13 +338,22 @@ end GojaModel.C09
 namespace GojaModel.C09
 
 /-- Return dispatch of the mechanism refines the spec: on the layout of ANY spec continuation, `enterNextFinallyFrame`
-(as repaired by 8004794) enters the finally block that the spec's unwinding of a return completion enters. -/
+(as repaired by 8004794) enters the finally block that the spec's unwinding of a return completion enters, AND makes
+the scope object saved in that try frame current (`vm.stash = tf.stash`, func.go:785): the finally block runs in the
+scope of its try statement (`specReturnScope` = number of block scopes around the try), whatever inner block scope —
+with its own closure-captured bindings — the body was suspended in, and whatever `vm.stash` was before. -/
 theorem mech_return_dispatch_refines_spec (spOf : Nat → Nat) (f : Mech.TryFrame → Mech.TryFrame) (C : Nat)
-    (hf : ∀ tf, (f tf).finallyPos = tf.finallyPos ∧ (f tf).callStackLen = C) (k : List Frame)
-    (vm : Mech.VM) (lo : List Mech.TryFrame) (i : Nat) (hC : vm.callStack.length = C)
-    (hvm : vm.tryStack = lo ++ (Link.encode spOf k).map f) (hs : Link.specReturnHandler k = some i) :
-    (Mech.enterNextFinallyFrame [] vm).1 = true ∧ (Mech.enterNextFinallyFrame [] vm).2.2.cur.pc = 2 * (i : Int) + 1 :=
-  Link.enterNextFinallyFrame_matches_spec spOf f C hf k vm lo [] i hC hvm hs
+    (hf : ∀ tf, (f tf).finallyPos = tf.finallyPos ∧ (f tf).callStackLen = C ∧ (f tf).stash = tf.stash) (k : List Frame)
+    (vm : Mech.VM) (lo : List Mech.TryFrame) (i sc : Nat) (hC : vm.callStack.length = C)
+    (hvm : vm.tryStack = lo ++ (Link.encode spOf k).map f) (hs : Link.specReturnHandler k = some i)
+    (hsc : Link.specReturnScope k = some sc) :
+    (Mech.enterNextFinallyFrame [] vm).1 = true ∧ (Mech.enterNextFinallyFrame [] vm).2.2.cur.pc = 2 * (i : Int) + 1 ∧
+    (Mech.enterNextFinallyFrame [] vm).2.2.cur.stash = sc :=
+  Link.enterNextFinallyFrame_matches_spec spOf f C hf k vm lo [] i sc hC hvm hs hsc
+
+/-- (test) a body suspended at a yield inside an inner block scope of a try block: the pending finally lives in scope 0. -/
+example : Link.specReturnScope [.seqK [], .blkK, .seqK [], .tryK none (some []), .seqK []] = some 0 := by decide
+example : Link.specReturnScope [.yldK, .blkK, .tryK none (some []), .seqK [], .blkK, .seqK []] = some 1 := by decide
 
 /-- The content of repair 8004794: the frame whose finally block return(v) enters is dead for `handleThrow`, so an
 exception raised in that block is dispatched to the enclosing handlers exactly as if the frame had been popped. -/
